@@ -336,7 +336,7 @@ theorem closedR_of_closedE {d : Dir} {k : Nat} {s : St α} (h : ClosedE leq E d 
   obtain ⟨h1, h2, h3⟩ := h j v hl
   exact ⟨h1, h2, fun _ x _ => h3 x⟩
 
-theorem reconnectRelatives_spec {k : Nat} {s : St α} (E0 : List α) (h : InvB leq E E.length true s) :
+theorem reconnectRelatives_spec {k : Nat} {s : St α} (E0 : List α) (h : InvB leq E Ghost.none true s) :
     Sat (reconnectRelatives ord k) { s with elems := E0 } (fun s' _ =>
       InvR leq E k s' ∧ s'.elems = E0 ∧ s'.useCache = true) := by
   have hCE : ∀ d j v, alookup j (s.closed d) = some v →
